@@ -172,6 +172,105 @@ def _meta_fields(meta):
     return list(fields.items())
 
 
+# --------------------------------------------------------------------------------------------------
+# tool route: grammar_hint of INVALID octave_validate / octave_write responses, for INVALID documents of every kind — the hint
+# is "a grammar that is returned" whatever document was being validated, so the offending values are drawn from a pool of texts that
+# are not inert inside a grammar (line breaks, '#', quotes, backslashes, rule syntax)
+# --------------------------------------------------------------------------------------------------
+HINT_VALUES_TOOLROUTE = ["DRAFT\nsecond line", "a\rb", "a\r\nb", "\n", "x # y", "#", 'say "hi"', '"', "a\\b", "back\\", 'root ::= "x"', 'a ::= b\nroot ::= a', "# c\n#",
+                         "tab\there", "é ü", "[a-z]+ | (", "plain"]
+# constrained fields of the section schema: every constraint kind whose verdict echoes the value, the schema text or neither
+HINT_FIELDS_TOOLROUTE = [["STATUS", "REQ∧ENUM[A,B]"], ["C", "CONST[K]"], ["R", 'REGEX["^[a-z]+$"]'], ["D", "DATE"], ["N", "RANGE[1,5]"], ["I", "ISO8601"], ["M", "MAX_LENGTH[3]"],
+                         ["T", "TYPE[NUMBER]"], ["L", "TYPE[LIST]"]]
+# schema-side texts that are echoed in verdicts (allowed values, constants, patterns) and are not inert either
+HINT_SCHEMA_SIDE_TOOLROUTE = [["E2", 'ENUM["a#b","c\\"d"]'], ["C2", 'CONST["x\\ny"]'], ["C3", 'CONST["# k"]'], ["R2", 'REGEX["^[a-z#]+$"]']]
+
+
+def octave_quote_toolroute(s: str) -> str:
+    """a quoted OCTAVE string for `s` (carriage returns stay raw: the reader has no escape for them)."""
+    return '"' + s.replace("\\", "\\\\").replace('"', '\\"').replace("\n", "\\n").replace("\t", "\\t") + '"'
+
+
+def hint_instance_toolroute(route, schema_name, assignments):
+    """an instance document: META assignments for the builtin META schema, a block keyed by the schema's name for a section schema."""
+    q = octave_quote_toolroute
+    body = "".join(f"  {k}::{v if raw else q(v)}\n" for (k, v, raw) in assignments)
+    if route == "META":
+        return f"===TEST===\nMETA:\n{body}===END===\n"
+    return f'===INSTANCE===\nMETA:\n  TYPE::X\n  VERSION::"1.0"\n\n{schema_name}:\n{body}===END===\n'
+
+
+def hint_instance_cases_toolroute(ctx):
+    cases = []
+    add = cases.append
+    sch = {"name": "GBNFHV", "fields": HINT_FIELDS_TOOLROUTE + HINT_SCHEMA_SIDE_TOOLROUTE}
+    for v in HINT_VALUES_TOOLROUTE:
+        # the packaged META schema: the offending value in the ENUM-constrained STATUS, in TYPE position of a list, next to a missing TYPE
+        add({"kind": "hint-instance", "schema": "META", "instance": hint_instance_toolroute("META", "META", [("TYPE", "X", False), ("VERSION", "1.0", False), ("STATUS", v, False)])})
+        add({"kind": "hint-instance", "schema": "META", "instance": hint_instance_toolroute("META", "META", [("VERSION", "1.0", False), ("STATUS", "[" + octave_quote_toolroute(v) + ",ok]", True)])})
+        # a section schema: the value in every constrained field in turn (quick: three fields per value in rotation + ENUM and CONST always)
+        k0 = HINT_VALUES_TOOLROUTE.index(v)
+        fs = HINT_FIELDS_TOOLROUTE if (ctx.thorough or ctx.widen > 1) else HINT_FIELDS_TOOLROUTE[:2] + [HINT_FIELDS_TOOLROUTE[2 + (k0 + j) % (len(HINT_FIELDS_TOOLROUTE) - 2)] for j in range(3)]
+        for (k, _c) in fs:
+            asg = ([("STATUS", "A", True)] if k != "STATUS" else []) + [(k, v, False)]
+            add({"kind": "hint-instance", "schema": sch, "instance": hint_instance_toolroute("section", sch["name"], asg)})
+        for (k, _c) in HINT_SCHEMA_SIDE_TOOLROUTE[k0 % 2::2]:
+            add({"kind": "hint-instance", "schema": sch, "instance": hint_instance_toolroute("section", sch["name"], [("STATUS", "A", True), (k, v, False)])})
+    # more than ten verdicts at once, every one echoing a value
+    many = [(k, HINT_VALUES_TOOLROUTE[i % len(HINT_VALUES_TOOLROUTE)], False) for i, (k, _c) in enumerate(HINT_FIELDS_TOOLROUTE + HINT_SCHEMA_SIDE_TOOLROUTE)]
+    add({"kind": "hint-instance", "schema": sch, "instance": hint_instance_toolroute("section", sch["name"], many)})
+    add({"kind": "hint-instance", "schema": sch, "instance": hint_instance_toolroute("section", sch["name"], list(reversed(many)))})
+    # seeded random values over the same alphabet, in a random constrained field of either schema
+    rng = random.Random(f"{ctx.seed}:hint-instance")
+    alpha = ["\n", "\r", "#", '"', "\\", " ", "::=", "root", "a", "|", "[", "]", "é", "\t", "(", "*", "x y", "'", "0"]
+    allf = HINT_FIELDS_TOOLROUTE + HINT_SCHEMA_SIDE_TOOLROUTE
+    for _ in range(ctx.budget(40, 1500)):
+        v = "".join(rng.choice(alpha) for _ in range(rng.randint(1, 6)))
+        if rng.random() < 0.3:
+            add({"kind": "hint-instance", "schema": "META", "instance": hint_instance_toolroute("META", "META", [("TYPE", "X", False), ("VERSION", "1.0", False), ("STATUS", v, False)])})
+        else:
+            ks = rng.sample([k for k, _c in allf], rng.randint(1, 3))
+            asg = ([("STATUS", "A", True)] if "STATUS" not in ks else []) + [(k, v, False) for k in ks]
+            add({"kind": "hint-instance", "schema": sch, "instance": hint_instance_toolroute("section", sch["name"], asg)})
+    return cases
+
+
+def hint_instance_obs_toolroute(case, res):
+    """observations of one hint-instance case: grammar_hint.grammar of octave_validate and octave_write (grammar_hint=True) on the instance."""
+    from octave_mcp.mcp.validate import ValidateTool
+    from octave_mcp.mcp.write import WriteTool
+    sref = case["schema"]
+    with G.Sandbox() as sb:
+        if isinstance(sref, dict):
+            from octave_mcp.core.parser import parse
+            from octave_mcp.core.schema_extractor import extract_schema_from_document
+            text = G.fields_doc(sref["name"], [tuple(f) for f in sref["fields"]])
+            try:
+                schema = extract_schema_from_document(parse(text))
+            except Exception:
+                res["skip"] = "doc-unreadable"
+                return []
+            sb.put_schema(sref["name"], text)
+            sname = sref["name"]
+        else:
+            from octave_mcp.schemas.loader import load_schema_by_name
+            schema = load_schema_by_name(sref)
+            if schema is None:
+                res["skip"] = "packaged-schema-not-found"
+                return []
+            sname = sref
+        fields_enc = [(n, G.enc_field(n, fd)["chain"]) for n, fd in schema.fields.items()]
+        req = G.enc_schema(schema, True)
+        obs = []
+        r = G.run_tool(ValidateTool(), content=case["instance"], schema=sname, grammar_hint=True)
+        obs.append(_obs("hint-instance:validate_hint", (r.get("grammar_hint") or {}).get("grammar"), schema.name, fields_enc, True, req, _tool_exc(r)))
+        res["verdicts"] = [r.get("validation_status")]
+        r = G.run_tool(WriteTool(), target_path=sb.fresh_target(), content=case["instance"], schema=sname, grammar_hint=True)
+        obs.append(_obs("hint-instance:write_hint", (r.get("grammar_hint") or {}).get("grammar"), schema.name, fields_enc, True, req, _tool_exc(r)))
+        res["verdicts"].append(r.get("validation_status"))
+    return obs
+
+
 def eval_case(case):
     """-> {"case", "skip"?, "obs":[…]}   Never raises for reasons attributable to the code under test."""
     kind = case["kind"]
@@ -271,6 +370,8 @@ def eval_case(case):
             g, _r = G.route_compile_tool(schema=case["name"])
             obs.append(_obs("packaged:compile_tool", g, schema.name, fields_enc, True, G.enc_schema(schema, True)))
             res["obs"] = obs
+        elif kind == "hint-instance":
+            res["obs"] = hint_instance_obs_toolroute(case, res)
         elif kind == "emit":
             from octave_mcp.core.grammar import emit_grammar_for_schema
             g = emit_grammar_for_schema(case["name"])
@@ -475,6 +576,8 @@ def gen_cases(ctx):
             add({"kind": "doc", "name": rng.choice(DOC_SCHEMA_NAMES), "fields": [[n, c] for n, c in fields if n in doc_names]})
         else:
             add({"kind": "contract", "type": rng.choice(TYPE_TEXTS), "entries": [f"FIELD[{rng.choice(CONTRACT_NAMES)}]::{rng.choice(CONTRACT_CHAINS)}" for _ in range(nf)]})
+    # H grammar_hint of INVALID verdicts on documents whose offending values are not inert inside a grammar (tool route)
+    cases += hint_instance_cases_toolroute(ctx)
     return cases
 
 
@@ -491,7 +594,8 @@ def run(ctx: vlib.Ctx):
     ctx.rule = ("a case = one schema (kind: api / FIELDS document / META.CONTRACT tokens / CONTRACT list / packaged) evaluated at every "
                 "observation point that applies (API with and without envelope, octave_compile_grammar, octave_eject format=gbnf, grammar_hint of "
                 "INVALID validate/write); exhaustive over the name pool x chains, chains of length<=L over the constraint pool, the REGEX pool, all "
-                "name pairs, plus seeded random multi-field schemas; non-trivial = at least one grammar was returned; distinct = distinct case")
+                "name pairs, plus seeded random multi-field schemas; grammar_hint of INVALID validate/write verdicts on documents whose offending values hold "
+                "line breaks, #, quotes, backslashes, rule syntax (builtin META and a section schema); non-trivial = at least one grammar was returned; distinct = distinct case")
     ctx.translate(PROJECT)
     proj = ctx.lean(PROJECT, PROPS)
     changed = vlib.fingerprints_changed(ctx.prop, ANCHORS)
@@ -549,6 +653,8 @@ def run(ctx: vlib.Ctx):
         got_any = any(isinstance(o["grammar"], str) for o in r["obs"])
         ctx.case(case, nontrivial=got_any)
         ctx.count("kind:" + case["kind"])
+        for v in r.get("verdicts", []):
+            ctx.count(f"hint-instance:verdict:{v}")
         for o in r["obs"]:
             route = o["label"]
             g = o["grammar"]
